@@ -5,5 +5,5 @@ CONSTANTS
   WithRestore = TRUE
   Bug = "none"
   Emit = FALSE
-INVARIANTS InvRefines InvStackInLog InvUndoRedoInverse
+INVARIANTS InvRefines InvStackInLog InvUndoRedoInverse InvAdjacentDiffer
 CHECK_DEADLOCK FALSE
